@@ -43,6 +43,38 @@ Proof. destruct (nth_in_or_default t l d); auto. Qed.
 Lemma In_nth_ex {A} (x : A) l d : In x l -> exists t, nth t l d = x.
 Proof. intro H. destruct (In_nth l x d H) as (t & _ & E). exists t. exact E. Qed.
 
+Lemma NoDup_insert {A} (x : A) l1 l2 : NoDup (l1 ++ l2) -> ~ In x (l1 ++ l2) -> NoDup (l1 ++ x :: l2).
+Proof.
+  induction l1 as [|y l1 IH]; cbn [app]; intros Hnd Hnin.
+  - constructor; assumption.
+  - inversion Hnd; subst. constructor.
+    + intro Hin. apply in_app_or in Hin. destruct Hin as [Hin|[E|Hin]].
+      * apply H1. apply in_or_app. left; exact Hin.
+      * apply Hnin. left. symmetry; exact E.
+      * apply H1. apply in_or_app. right; exact Hin.
+    + apply IH; [assumption|]. intro Hin. apply Hnin. right. exact Hin.
+Qed.
+
+Lemma NoDup_map_inj {A B} (f : A -> B) l a b :
+  NoDup (map f l) -> In a l -> In b l -> f a = f b -> a = b.
+Proof.
+  induction l as [|y l IH]; intros Hnd Ha Hb E; [destruct Ha|].
+  cbn [map] in Hnd. inversion Hnd; subst.
+  destruct Ha as [->|Ha], Hb as [->|Hb]; auto.
+  - exfalso. apply H1. rewrite E. apply in_map. exact Hb.
+  - exfalso. apply H1. rewrite <- E. apply in_map. exact Ha.
+Qed.
+
+Lemma NoDup_app_r {A} (l1 l2 : list A) : NoDup (l1 ++ l2) -> NoDup l2.
+Proof. induction l1 as [|x l1 IH]; cbn [app]; intro H; [exact H|]. inversion H; subst. apply IH. assumption. Qed.
+
+Lemma NoDup_app_l {A} (l1 l2 : list A) : NoDup (l1 ++ l2) -> NoDup l1.
+Proof.
+  induction l1 as [|x l1 IH]; cbn [app]; intro H; [constructor|]. inversion H; subst. constructor.
+  - intro Hin. apply H2. apply in_or_app. left; exact Hin.
+  - apply IH. assumption.
+Qed.
+
 (* ---- boolean reflection ------------------------------------------------------------ *)
 
 Lemma existsb_eqb_In x l : existsb (N.eqb x) l = true <-> In x l.
@@ -55,8 +87,7 @@ Qed.
 Lemma existsb_eqb_notIn x l : existsb (N.eqb x) l = false <-> ~ In x l.
 Proof.
   rewrite <- existsb_eqb_In. destruct (existsb (N.eqb x) l); split; intro H; try reflexivity; try discriminate.
-  - intro; discriminate.
-  - exfalso. apply H. reflexivity.
+  exfalso. apply H. reflexivity.
 Qed.
 
 Lemma nodupb_NoDup l : nodupb l = true <-> NoDup l.
@@ -85,14 +116,10 @@ Definition allowed (k c : N) : Prop := c = 0 \/ c = k.
 
 Lemma comb_allowed k a b : k <> 1 -> allowed k a -> allowed k b -> allowed k (comb a b).
 Proof.
-  intros Hk [->|->] [->|->]; unfold comb, allowed.
-  - cbn. left; reflexivity.
-  - destruct (N.eqb_spec k 1) as [E|_]; [contradiction|]. cbn. right; reflexivity.
-  - destruct (N.eqb_spec k 1) as [E|_]; [contradiction|]. cbn [orb N.eqb].
-    replace (0 =? 1) with false by reflexivity. cbn [orb].
-    destruct (N.eqb_spec k 0); [left; assumption|right; reflexivity].
-  - destruct (N.eqb_spec k 1) as [E|_]; [contradiction|]. cbn [orb].
-    destruct (N.eqb_spec k 0); [left; assumption|right; reflexivity].
+  intros Hk [-> | ->] [-> | ->]; unfold comb, allowed;
+    change (0 =? 1) with false; change (0 =? 0) with true;
+    try (destruct (N.eqb_spec k 1) as [E|_]; [contradiction|]); cbn [orb];
+    try (destruct (N.eqb_spec k 0) as [E0|_]); auto.
 Qed.
 
 Lemma close_code_allowed h c k : k <> 1 ->
